@@ -62,7 +62,7 @@ Lemma bfc_options : t_format_takes_options tag_BusinessFunctionCode = true. Proo
 Lemma bfc_nelems : length (t_elems tag_BusinessFunctionCode) = 2. Proof. reflexivity. Qed.
 Lemma ua_is : nth i_ua tags tag_Amount = tag_UnstructuredAddenda. Proof. reflexivity. Qed.
 Lemma ua_parse : t_parse tag_UnstructuredAddenda = [PGuard CLt 10; PTag false; PAddenda 0 1]. Proof. reflexivity. Qed.
-Lemma ua_format : t_format tag_UnstructuredAddenda = [FTag; FAlpha 0 4; FAddenda 0 1]. Proof. reflexivity. Qed.
+Lemma ua_format : t_format tag_UnstructuredAddenda = [FTag; FAlphaZ 0 4; FAddenda 0 1]. Proof. reflexivity. Qed.
 Lemma ua_nelems : length (t_elems tag_UnstructuredAddenda) = 2. Proof. reflexivity. Qed.
 Lemma omad_is : nth i_omad tags tag_Amount = tag_OutputMessageAccountabilityData. Proof. reflexivity. Qed.
 Lemma omad_parse : t_parse tag_OutputMessageAccountabilityData =
